@@ -37,6 +37,7 @@ def tlc_histories(ctx, cfg, simulate=None, depth=None, what=None, timeout=900):
             out.append(parse_hist(p))
     if not out:
         raise vf.Infra("Objects_gen/%s emitted no history" % cfg)
+    out.sort(key=repr)        # TLC's workers print in no particular order; the seeded choices below must not depend on it
     return out
 
 
@@ -424,19 +425,23 @@ def build_histories(ctx, tier, pid):
     H = []        # (A lines, B lines)
     hid = 0
     if tier == "quick":
-        # all abstract histories of depth 5 are enumerated; a seeded third of them is replayed in the quick tier
+        # all abstract histories of depth 5 are enumerated; a seeded quarter of them is replayed in the quick tier
         bfs = tlc_histories(ctx, "Objects_gen_quick.cfg", what="gen: all histories to depth 5")
         ctx.notes["bfs_histories_enumerated"] = len(bfs)
         rng.shuffle(bfs)
         bfs = bfs[:260]
-        sim = tlc_histories(ctx, "Objects_gen_sim.cfg", simulate=120, depth=24, what="gen: long random histories")[:40]
+        sim = tlc_histories(ctx, "Objects_gen_sim.cfg", simulate=120, depth=24, what="gen: long random histories")
+        rng.shuffle(sim)
+        sim = sim[:40]
     else:
         bfs5 = tlc_histories(ctx, "Objects_gen_quick.cfg", what="gen: all histories to depth 5")
         bfs6 = tlc_histories(ctx, "Objects_gen_thorough.cfg", what="gen: all histories to depth 6")
         ctx.notes["bfs_histories_enumerated"] = len(bfs5) + len(bfs6)
         rng.shuffle(bfs6)
         bfs = bfs5 + bfs6[:2000]
-        sim = tlc_histories(ctx, "Objects_gen_sim.cfg", simulate=1200, depth=24, what="gen: long random histories", timeout=1500)[:450]
+        sim = tlc_histories(ctx, "Objects_gen_sim.cfg", simulate=1200, depth=24, what="gen: long random histories", timeout=1500)
+        rng.shuffle(sim)
+        sim = sim[:450]
     ctx.notes["bfs_histories_replayed"] = len(bfs)
     ctx.notes["long_random_histories"] = len(sim)
     for ops in bfs + sim:
